@@ -215,7 +215,7 @@ def run(ctx):
         del execs
     ctx.notes["graph_ops"] = labels
     # 3. direction B: random histories on three real String variables, validated by TLC against ByteStrings
-    nexec, nops = (500, 40) if ctx.quick else (8000, 60)
+    nexec, nops = (500, 40) if ctx.quick else (20000, 60)
     execs = [rand_exec(ctx.rng, nops) for _ in range(nexec)]
     check_executions(ctx, binary, execs, "random")
     count_nops(ctx, "random")
